@@ -759,14 +759,247 @@ fn arb_case() -> impl Strategy<Value = InputCase> {
         .prop_map(|(items, error, chunks, sched, nonblock)| InputCase { items, error, chunks, sched, nonblock })
 }
 
+// -------------------------------------------------------------------------------------------
+// Interactive shells: a line that cannot be parsed (or whose command is aborted by a shell error)
+// is given up, the following lines are read and run as usual
+
+#[derive(Clone, Debug, PartialEq, Eq, Hash, Serialize, Deserialize)]
+pub enum ILine {
+    Mark,
+    St(u8),
+    /// a line that is a syntax error on its own: 0 `fi`, 1 `)`, 2 `|| mark N`, 3 `if then`, 4 `mark N ;;`,
+    /// 5 `mark N )` , 6 `{ mark N; } }`
+    Syntax(u8),
+    /// `alias iK='mark N'`
+    AliasDef(u8),
+    /// `iK`
+    AliasUse(u8),
+    /// expansion error: `mark ${unset_v?}`
+    ExpErr,
+    /// assignment to the read-only variable `ro`
+    AssignErr,
+    /// error of a special built-in: 0 `shift 9`, 1 `. ./missing`, 2 `set -o nosuchoption`
+    SpecialErr(u8),
+    /// a two-line if
+    If(bool),
+    Blank,
+}
+
+#[derive(Clone, Debug, PartialEq, Eq, Hash, Serialize, Deserialize)]
+pub struct InterCase {
+    pub lines: Vec<ILine>,
+    /// unterminated construct at the end of input: 0 `if true; then`, 1 `{ mark N`, 2 `mark 'abc`,
+    /// 3 `mark "$(`, 4 `while true; do`
+    pub tail: Option<u8>,
+    pub chunks: Vec<u16>,
+    pub sched: Option<u64>,
+}
+
+fn check_inter(c: &InterCase) -> Outcome {
+    // reference: line-at-a-time interpreter of an interactive shell (docs/src/termination.md: a
+    // command syntax error / shell error sets a non-zero status, the interactive shell ignores the
+    // current command and resumes reading input; the shell's exit status at end of input is that
+    // of the last command, where a shell error counts with its non-zero status)
+    #[derive(Clone, Copy, PartialEq, Debug)]
+    enum S {
+        Exact(i32),
+        NonZero,
+    }
+    let mut script = String::new();
+    let mut ro_defined = false;
+    let mut expect: Vec<(String, S)> = vec![];
+    let mut status = S::Exact(0);
+    let mut next = 100u32;
+    let mut aliases: std::collections::BTreeMap<u8, u32> = Default::default();
+    let mut errors_before_first_good = 0u32;
+    let mut errors = 0u32;
+    let mut good_lines = 0u32;
+    for l in &c.lines {
+        match l {
+            ILine::Mark => {
+                script.push_str(&format!("mark {next}\n"));
+                expect.push((next.to_string(), status));
+                next += 1;
+                status = S::Exact(0);
+                good_lines += 1;
+            }
+            ILine::St(n) => {
+                script.push_str(&format!("st {n}\n"));
+                status = S::Exact(*n as i32);
+                good_lines += 1;
+            }
+            ILine::Syntax(k) => {
+                let n = next;
+                next += 1;
+                script.push_str(&match k % 7 {
+                    0 => "fi\n".to_string(),
+                    1 => ")\n".to_string(),
+                    2 => format!("|| mark {n}\n"),
+                    3 => "if then\n".to_string(),
+                    4 => format!("mark {n} ;;\n"),
+                    5 => format!("mark {n} )\n"),
+                    _ => format!("{{ mark {n}; }} }}\n"),
+                });
+                // nothing of the line runs (POSIX leaves open whether the commands before the error on
+                // the same line run; these lines have none that could, except forms 4-6 whose mark
+                // must not run in a shell that parses whole lines - yash-rs documents line-wise parsing)
+                status = S::NonZero;
+                errors += 1;
+                if good_lines == 0 {
+                    errors_before_first_good += 1;
+                }
+            }
+            ILine::AliasDef(k) => {
+                let k = k % 3;
+                script.push_str(&format!("alias i{k}='mark {next}'\n"));
+                aliases.insert(k, next);
+                next += 1;
+                status = S::Exact(0);
+                good_lines += 1;
+            }
+            ILine::AliasUse(k) => {
+                let k = k % 3;
+                script.push_str(&format!("i{k}\n"));
+                match aliases.get(&k) {
+                    Some(n) => {
+                        expect.push((n.to_string(), status));
+                        status = S::Exact(0);
+                    }
+                    None => status = S::Exact(127),
+                }
+                good_lines += 1;
+            }
+            ILine::ExpErr => {
+                script.push_str(&format!("mark {next} ${{unset_v?}}\n"));
+                next += 1;
+                status = S::NonZero;
+                errors += 1;
+            }
+            ILine::AssignErr => {
+                if !ro_defined {
+                    // (a good line: defined lazily so that an input may start with error lines)
+                    script.push_str("readonly ro=1\n");
+                    ro_defined = true;
+                    good_lines += 1;
+                }
+                script.push_str("ro=2\n");
+                status = S::NonZero;
+                errors += 1;
+            }
+            ILine::SpecialErr(k) => {
+                script.push_str(match k % 3 {
+                    0 => "shift 9\n",
+                    1 => ". ./missing\n",
+                    _ => "set -o nosuchoption\n",
+                });
+                status = S::NonZero;
+                errors += 1;
+            }
+            ILine::If(b) => {
+                script.push_str(&format!("if st {}; then\nmark {next}; fi\n", if *b { 0 } else { 1 }));
+                if *b {
+                    expect.push((next.to_string(), S::Exact(0)));
+                }
+                next += 1;
+                status = S::Exact(0);
+                good_lines += 1;
+            }
+            ILine::Blank => script.push('\n'),
+        }
+    }
+    if let Some(t) = c.tail {
+        let n = next;
+        script.push_str(&match t % 5 {
+            0 => "if true; then\n".to_string(),
+            1 => format!("{{ mark {n}\n"),
+            2 => format!("mark 'abc{n}\n"),
+            3 => "mark \"$(\n".to_string(),
+            _ => "while true; do\n".to_string(),
+        });
+        status = S::NonZero;
+        errors += 1;
+        if good_lines == 0 {
+            errors_before_first_good += 1;
+        }
+    }
+    let mut s = vsys::Setup::script(&script);
+    s.argv = vec!["yash".into(), "-i".into()];
+    let bytes = script.as_bytes();
+    let mut v = vec![];
+    let (mut i, mut k) = (0, 0);
+    while i < bytes.len() {
+        let want = if c.chunks.is_empty() { bytes.len() } else { (c.chunks[k % c.chunks.len()] as usize).max(1) };
+        let end = (i + want).min(bytes.len());
+        v.push(bytes[i..end].to_vec());
+        i = end;
+        k += 1;
+    }
+    s.stdin_pipe = Some(v);
+    if let Some(seed) = c.sched {
+        s.chooser = Chooser::Seeded(seed);
+        s.preempt = true;
+    }
+    let r = vsys::run(&s);
+    let ctx = |m: String| format!("{m}\nchunks {:?} sched {:?}\ninput of the interactive shell:\n{script}stderr: {:?}", c.chunks, c.sched, r.stderr);
+    if let Some(p) = &r.panic {
+        return Outcome::fail(ctx(format!("panic: {p}")));
+    }
+    if !r.finished || r.log.deadlock {
+        return Outcome::fail(ctx("the interactive shell did not reach the end of its input".into()));
+    }
+    let got: Vec<(String, i32)> = r.main_trace().iter().map(|t| (t.args.first().cloned().unwrap_or_default(), t.status)).collect();
+    let matches = |g: i32, w: S| match w {
+        S::Exact(n) => g == n,
+        S::NonZero => g != 0,
+    };
+    if got.len() != expect.len() || got.iter().zip(&expect).any(|((gi, gs), (wi, ws))| gi != wi || !matches(*gs, *ws)) {
+        return Outcome::fail(ctx(format!("commands run (id, $? on entry): {got:?}\nreference: {expect:?}")));
+    }
+    if !matches(r.status, status) {
+        return Outcome::fail(ctx(format!("exit status of the shell {} , reference {status:?} (status of the last line; a line given up for a syntax / shell error counts with its non-zero status)", r.status)));
+    }
+    Outcome::pass(errors > 0 && !expect.is_empty())
+        .class_if(errors_before_first_good > 0, "error-line-before-any-line-parsed")
+        .class_if(c.tail.is_some(), "unterminated-construct-at-end-of-input")
+        .class_if(errors > 0 && good_lines > 0, "error-lines-among-good-lines")
+        .class_if(errors == 0, "no-error-line")
+}
+
+pub static INTER: Driver<InterCase> = Driver::new("C18", "interactive", check_inter);
+
+fn arb_inter() -> impl Strategy<Value = InterCase> {
+    let line = prop_oneof![
+        4 => Just(ILine::Mark),
+        2 => (0u8..4).prop_map(ILine::St),
+        4 => any::<u8>().prop_map(ILine::Syntax),
+        1 => any::<u8>().prop_map(ILine::AliasDef),
+        1 => any::<u8>().prop_map(ILine::AliasUse),
+        1 => Just(ILine::ExpErr),
+        1 => Just(ILine::AssignErr),
+        1 => any::<u8>().prop_map(ILine::SpecialErr),
+        1 => any::<bool>().prop_map(ILine::If),
+        1 => Just(ILine::Blank),
+    ];
+    (
+        prop::collection::vec(line, 0..8),
+        prop::option::weighted(0.4, any::<u8>()),
+        prop_oneof![1 => Just(vec![]), 1 => Just(vec![1u16]), 3 => prop::collection::vec(1u16..40, 1..5)],
+        prop::option::weighted(0.5, any::<u64>()),
+    )
+        .prop_map(|(lines, tail, chunks, sched)| InterCase { lines, tail, chunks, sched })
+}
+
 pub fn run(ctx: &Ctx, st: &mut Stats) {
     let n = ctx.tier.pick(100_000, 1_500_000);
     INPUT.run_random(ctx, st, n, arb_case);
+    let n = ctx.tier.pick(6_000, 300_000);
+    INTER.run_random(ctx, st, n, arb_inter);
 }
 
 pub fn replay(driver: &str, case: &serde_json::Value) -> Result<(Outcome, Option<&'static str>), String> {
     match driver {
         "input" => INPUT.replay_known(case),
+        "interactive" => INTER.replay_known(case),
         _ => Err(format!("unknown driver {driver}")),
     }
 }
